@@ -395,18 +395,18 @@ inductive Task where
   | destruct (ob : Nat)                                    -- destruct_object
   | dloop (ob : Nat) (sup0 : Option Nat) (saveR : Option Nat)  -- its `while (ob->contains)` loop
 
-def errInside := "*Can't move object inside itself."
-def errDestDest := "*Can't move to a destructed object."
-def errMoveDested := "move_object(): can't move a destructed object"
+def errInside := NV.Gen.C08.errInsideSrc
+def errDestDest := NV.Gen.C08.errDestDestSrc
+def errMoveDested := NV.Gen.C08.errMoveDestedSrc
 def errInitDested := "*An object was destructed at call of init()"
 def errItemDested := "*The object to be moved was destructed at call of init()!"
 def errDestGone := "*The destination to move to was destructed at call of init()!"
-def errRestrict := "*Only this_object() can be destructed from move_or_destruct."
+def errRestrict := NV.Gen.C08.errRestrictSrc
 def errBadFile := "*Error in loading object '/c08/bad':"
 def errBoom := "*boom"
 def errFis (b : Base) : String :=
   "Bad argument 1 to first_inventory(), Expected: string or object Got: \"/" ++ b.str ++ "\"."
-def errNoDest := "move_object failed: could not find destination"
+def errNoDest := NV.Gen.C08.errNoDestSrc
 
 /-- the interpreter; every call decreases the fuel -/
 def exec (sc : Scripts) : Nat → Task → World → R
@@ -578,7 +578,7 @@ def exec (sc : Scripts) : Nat → Task → World → R
         | none => { w := w, val := none }
         | some ob =>
           if ¬ (ob < w.c.n) ∨ (w.c.objs ob).freed then crashR w "clone_object"
-          else if (w.c.objs ob).clone then raise w "*Cannot clone from a clone!"
+          else if (w.c.objs ob).clone then raise w NV.Gen.C08.errCloneCloneSrc
           else
             -- "We do not want the heart beat to be running for unused copied objects"
             let w := hbRemove w ob
